@@ -21,7 +21,7 @@ func init() {
 			"expansion of an extended ID with |h-v| <= 4 into spatial IDs (duplicate-free, at max(h,v), set equal to the dyadic descendants, count 4^d or 2^d). " +
 			"Non-trivial = list non-empty with some x,y,f pairwise different or h != v; distinct by list.",
 		Assume: []string{"reference: z/f/x/y <-> h/x/y/v/f with h=v=z; descendants [i<<d,(i+1)<<d) per refined axis"},
-		N:      tierN(150_000, 6_000_000),
+		N:      tierN(250_000, 6_000_000),
 		Floor:  tierN(1000, 10000),
 		Run:    runC10,
 	})
